@@ -399,7 +399,7 @@ func trial(c *core.Ctx, id string, cfg fc.Cfg, s sub, rng *rand.Rand, rot int) {
 	c.Max("max_pulled_per_iteration", res.MaxPull)
 	c.Sig(cfg.Shape(), s.name, s.cut, plan.Term, plan.Kind)
 	judge(c, id, cfg, s, plan, frames, tail, layout, res)
-	if c.WantSample() && rot%211 == 0 {
+	if c.WantSample() && rot%211 == 17 {
 		c.Sample(map[string]interface{}{"case": id, "config": cfg.String(), "family": s.name, "cut_class": s.cut, "stream": fc.Hex(s.stream, 48),
 			"reference_frames": len(frames), "reference_tail": tail.Kind, "plan": plan.Detail(), "messages": len(res.Msgs), "exceptions": fc.ErrStrings(res.Exceptions), "inactive": res.Inactive})
 	}
